@@ -163,7 +163,7 @@ def run(ctx):
                 "every array (including ones that keep the first row and the total size) must be rejected; arrays with 2-5 "
                 "template parameters among literal elements keep every element and parameter in the cell it was written in; model LOADS vs implementation on all of them; non-trivial = an "
                 "array with at least 2 rows and 2 columns or at least 3 declarations; distinct by text")
-    n = ctx.n(300, 5000)
+    n = ctx.n(150, 5000)
     mx = ctx.n(6, 12)
     texts = []
     for i in range(n):
@@ -239,7 +239,7 @@ def run(ctx):
                 if msg:
                     ctx.violation("rejection: " + msg, {"kind": "rejected", "text": t3, "what": what})
     # arrays with several template parameters among their elements keep every element where it was written
-    for _ in range(ctx.n(150, 2000)):
+    for _ in range(ctx.n(100, 2000)):
         text, shape, want = param_array_case(ctx.rng, ctx.n(4, 6))
         ctx.count("array-with-parameters")
         ctx.case(text, nontrivial=True)
